@@ -1,5 +1,5 @@
 """C02 — Outcome does not depend on context factory or worker threads (DESIGN.md 3, C02): the hand-off structure."""
-from .. import cg, ex, lib
+from .. import cfg, cg, ex, lib
 from ..cfg import LOG_MACROS
 from ..core import where, EXCLUDED_UNITS
 from ..ir import AnalysisBroken, REPO
@@ -35,6 +35,65 @@ def range_loops(P, A, f):
         conds = [b for b in body if len(v.succs(b)) > 1 and not v.is_log_branch(b)]
         out.append((h, body, v.norm(rng[0]['init']) if rng else None, calls, conds))
     return out
+
+
+def run_thread_handoff(ctx, P, A):
+    """R5/R6: the hand-off of the thread factory.  A worker slot (ParallelThreadContext::thread_sem_, contexts/nthreads of them) is taken by start_hook() and
+    given back by yield_hook(); an actor thread that waits for maestro (begin_.acquire()) or ends while holding its slot starves the other actors as soon as
+    nthreads of them did so, and only with the thread factory and nthreads > 1."""
+    TC = CX + 'ThreadContext::'
+    ctx.rule('R5', 'an actor thread never waits for maestro and never ends while holding a worker slot: on every path of wrapper/suspend/attach_start/attach_stop '
+             '(start() and yield() inlined) begin_.acquire() is reached with the slot given back (yield_hook() after the last start_hook()), and wrapper and '
+             'attach_stop return with the slot given back', 4)
+    entries = {TC + 'wrapper': ('free', 'free'), TC + 'suspend': ('held', None), TC + 'attach_start': ('free', None), TC + 'attach_stop': ('held', 'free')}
+    hooks = 0
+    for q, (init, want) in sorted(entries.items()):
+        f = P.fn(q)
+        bad = []
+        seen = {'start_hook': 0, 'yield_hook': 0, 'acquire': 0}
+
+        def transfer(st, ev, bad=bad, seen=seen):
+            if ev.kind != 'call':
+                return st
+            if ev.q == TC + 'start_hook' or ev.q.endswith('ThreadContext::start_hook'):
+                seen['start_hook'] += 1
+                return 'held'
+            if ev.q == TC + 'yield_hook' or ev.q.endswith('ThreadContext::yield_hook'):
+                seen['yield_hook'] += 1
+                return 'free'
+            if ev.q.endswith('OsSemaphore::acquire') and ev.obj is not None and ev.obj[0] == 'field' and ev.obj[2] == TC + 'begin_':
+                seen['acquire'] += 1
+                if st == 'held':
+                    bad.append((ev.line, 'waits for maestro on begin_ while holding its worker slot'))
+            return st
+        ex_ = cfg.abstract_run(A, f, init, transfer, inline=lambda ev, callee: callee['q'] in (TC + 'start', TC + 'yield', TC + 'suspend'))
+        hooks += seen['start_hook'] + seen['yield_hook']
+        if want is not None and any(x != want for x in ex_['normal']):
+            bad.append((f['line'], 'returns while still holding its worker slot (no yield_hook() after the last start_hook())'))
+        short = q.replace(CX, '')
+        ctx.check(not bad, 'R5', '%s: the worker slot is given back before waiting for maestro%s' % (short, ' and before returning' if want else ''), where(f, bad[0][0] if bad else None),
+                  ('%s: with contexts/factory:thread and contexts/nthreads > 1 the slot is lost, and after nthreads such events no actor can start its turn' % bad[0][1]) if bad
+                  else 'start_hook x%d, yield_hook x%d, begin_.acquire x%d on the explored paths' % (seen['start_hook'], seen['yield_hook'], seen['acquire']),
+                  key='R5|%s|slot' % short)
+    ctx.require(hooks >= 4, 'R5', 'start_hook()/yield_hook() calls not met in the thread context functions (%d)' % hooks)
+    pth = [f for f in P.fns.values() if f['q'] in (CX + 'ParallelThreadContext::start_hook', CX + 'ParallelThreadContext::yield_hook') and f.get('blocks')]
+    ctx.require(len(pth) == 2, 'R5', 'ParallelThreadContext::start_hook/yield_hook not found')
+    for f in pth:
+        v = A.view(f)
+        ops = set(e.q.rsplit('::', 1)[-1] for p_ in v.paths() for e in v.path_events(p_) if e.kind == 'call' and e.q.endswith(('OsSemaphore::acquire', 'OsSemaphore::release')))
+        want = {'acquire'} if f['q'].endswith('start_hook') else {'release'}
+        ctx.check(ops == want, 'R5', '%s %ss thread_sem_' % (f['q'].replace(CX, ''), sorted(want)[0]), where(f), 'operations: %s' % sorted(ops), key='R5|%s|semaphore op' % f['q'].replace(CX, ''))
+    ctx.rule('R6', 'the hand-off semaphores begin_/end_ of a thread context are operated only by ThreadContext members (release/wait/start/yield, the start-up handshake of the '
+             'constructor and wrapper, attach_start/attach_stop)', 6)
+    allowed = {TC + 'release', TC + 'wait', TC + 'start', TC + 'yield', TC + 'wrapper', TC + 'ThreadContext', TC + 'attach_start', TC + 'attach_stop'}
+    n = 0
+    for fq in (TC + 'begin_', TC + 'end_'):
+        for u in lib.field_uses(P, fq):
+            n += 1
+            who = u.fn['q']
+            ctx.check(who in allowed, 'R6', '%s uses %s' % (who.replace(K, ''), fq.replace(CX, '')), where(u.fn, u.line), 'a hand-off outside the protocol functions' if who not in allowed else '',
+                      key='R6|%s|%s' % (who.replace(K, ''), fq.rsplit('::', 1)[-1]))
+    ctx.require(n >= 6, 'R6', 'uses of begin_/end_ not found (%d)' % n)
 
 
 def run(ctx):
@@ -229,6 +288,7 @@ def run(ctx):
                           key='R4|%s|reads %s' % (fn['q'].replace(K, ''), q.rsplit('::', 1)[-1]))
     ctx.check(True, 'R4', 'every other function of the %d loaded units is silent about the execution configuration' % len(ctx.units_loaded) if hasattr(ctx, 'units_loaded') else 'every other loaded function is silent about the execution configuration', '', '%d reader(s) listed above' % nread,
               key='R4|readers|closed list')
+    run_thread_handoff(ctx, P, A)
     ctx.assume('absence of data races in user code and in the few kernel counters touched from actor context, and the memory ordering of the synchro primitives, are not decided; '
                'the raw and boost factories share SwappedContext (only swap_into_for_real differs, which is a stack switch); exactly-once hand-out of the parallel map is C49')
     return EXPLANATION
